@@ -69,6 +69,60 @@ static void op_openm(FILE *out, const char *id, char **a, int n) {
     zck_free(&zck); close(fd); free(b);
 }
 
+/* OPENRETRY <file> <pos> <byte hex>: the advanced API on the file with one byte substituted, every failing step retried once on
+ * the SAME context after zck_clear_error (a consumer that clears a non-fatal error and goes on must not get past the checksum).
+ *  -> OK | ERR */
+static void op_openretry(FILE *out, const char *id, char **a, int n) {
+    size_t len; unsigned char *b = slurp(a[0], &len);
+    size_t pos = strtoull(a[1], NULL, 10);
+    if(!b || pos >= len) { fprintf(out, "%s HARNESS-ERR\n", id); return; }
+    b[pos] = (unsigned char)strtoul(a[2], NULL, 16);
+    int fd = memfd_create("zdrv", 0);
+    if(fd < 0 || write(fd, b, len) != (ssize_t)len) { fprintf(out, "%s HARNESS-ERR memfd\n", id); return; }
+    lseek(fd, 0, SEEK_SET);
+    zckCtx *zck = zck_create();
+    int ok = zck_init_adv_read(zck, fd);
+    if(ok) {
+        ok = zck_read_lead(zck);
+        if(!ok) { zck_clear_error(zck); ok = zck_read_lead(zck); }
+    }
+    if(ok) {
+        ok = zck_read_header(zck);
+        if(!ok) { zck_clear_error(zck); ok = zck_read_header(zck); }
+        if(!ok) { zck_clear_error(zck); ok = zck_read_header(zck); }
+    }
+    fprintf(out, "%s %s\n", id, ok ? "OK" : "ERR");
+    zck_free(&zck); close(fd); free(b);
+}
+
+/* PINSWAP <fileA> <fileB> <ht|-> <digest string as hex|-> <len|-> <v|l>: pins set (type, digest, length) on a context whose
+ * descriptor holds A; mode v: zck_validate_lead, mode l: zck_read_lead (zck_clear_error after a failure); then the bytes behind the
+ * descriptor are replaced by B and zck_read_lead + zck_read_header run on the same context.
+ *  -> OK first=<0|1> final=<OK|ERR>  |  ERR opt_* */
+static void op_pinswap(FILE *out, const char *id, char **a, int n) {
+    size_t la, lb; unsigned char *A = slurp(a[0], &la), *Bf = slurp(a[1], &lb);
+    if(!A || !Bf) { fprintf(out, "%s HARNESS-ERR nofile\n", id); return; }
+    int fd = memfd_create("zdrv", 0);
+    if(fd < 0 || write(fd, A, la) != (ssize_t)la) { fprintf(out, "%s HARNESS-ERR memfd\n", id); return; }
+    lseek(fd, 0, SEEK_SET);
+    zckCtx *zck = zck_create();
+    zck_init_adv_read(zck, fd);
+    if(strcmp(a[2], "-") != 0 && !zck_set_ioption(zck, ZCK_VAL_HEADER_HASH_TYPE, atoll(a[2]))) { fprintf(out, "%s ERR opt_type\n", id); return; }
+    if(strcmp(a[3], "-") != 0) {
+        size_t dl; unsigned char *d = get_hex(strcmp(a[3], "e") == 0 ? "-" : a[3], &dl);
+        if(!zck_set_soption(zck, ZCK_VAL_HEADER_DIGEST, (char *)d, dl)) { fprintf(out, "%s ERR opt_digest\n", id); return; }
+        free(d);
+    }
+    if(strcmp(a[4], "-") != 0 && !zck_set_ioption(zck, ZCK_VAL_HEADER_LENGTH, atoll(a[4]))) { fprintf(out, "%s ERR opt_len\n", id); return; }
+    int first = a[5][0] == 'v' ? zck_validate_lead(zck) : zck_read_lead(zck);
+    if(!first) zck_clear_error(zck);
+    if(ftruncate(fd, 0) != 0 || pwrite(fd, Bf, lb, 0) != (ssize_t)lb) { fprintf(out, "%s HARNESS-ERR swap\n", id); return; }
+    lseek(fd, 0, SEEK_SET);
+    int fin = zck_read_lead(zck) && zck_read_header(zck);
+    fprintf(out, "%s OK first=%d final=%s\n", id, first ? 1 : 0, fin ? "OK" : "ERR");
+    zck_free(&zck); close(fd); free(A); free(Bf);
+}
+
 /* META <file> -> everything the API reports */
 static void op_meta(FILE *out, const char *id, char **a, int n) {
     int fd;
